@@ -62,6 +62,14 @@ Ct(n, dom, unit, per, d) == [n |-> n, k |-> "count", dom |-> dom, acc |-> {}, un
 Os(n, dom, d)    == [n |-> n, k |-> "osize", dom |-> dom, acc |-> {}, unit |-> 1, per |-> 1, dev |-> d]
 Sl(n)            == [n |-> n, k |-> "seal", dom |-> {"keep", "fix"}, acc |-> {}, unit |-> 1, per |-> 0, dev |-> "-"]
 
+TextFormats == {"espec", "bpsv", "build_config", "cdn_config", "patch_config", "product_config", "keyring_config",
+                "mime", "build_info"}
+NumLits == {"typ", "0", "4294967296", "18014398509481984", "9223372036854775808", "18446744073709551615",
+            "18446744073709551616", "-1", "huge"}
+BigLits == {"18014398509481984", "9223372036854775808", "18446744073709551615"}   \* times 1024 leaves u64
+Depths == {"none", "n:33", "n:65", "n:1000", "n:10000", "n:100000", "n:250000"}
+DeepDepths == {"n:1000", "n:10000", "n:100000", "n:250000"}
+SeekDom == {"zero", "typ", "under", "halfm1", "max", "maxm1"}
 NameOffsets == {"n:0", "n:1", "n:2", "n:3", "n:4", "n:5", "n:6", "n:7", "n:8", "n:9", "n:10", "n:11", "n:12", "n:13",
                 "n:14", "n:15", "n:16", "n:17", "n:18", "n:19", "n:20"}
 BlteRow == <<Mg("magic"), Ct("header_size", C32, 1, 0, "-"),
@@ -100,7 +108,9 @@ Row(fmt) ==
     [] fmt = "size" ->
          <<Mg("magic"), En("version", EN, {"typ", "over"}), En("ekey_size", WD, {"one", "typ"}),
            Ct("entry_count", C32, 10, 40, "F02j"), Ct("tag_count", C16, 4, 56, "-"),
-           En("esize_bytes", WD, {"one", "typ", "over"})>>
+           En("esize_bytes", WD, {"one", "typ", "over"}),
+           EnD("e0_esize", {"typ", "one", "max"}, {"typ", "one", "max"}, "F02u"),
+           EnD("e1_esize", {"typ", "one", "max"}, {"typ", "one", "max"}, "F02u")>>
     [] fmt = "tvfs" ->
          <<Mg("magic"), En("format_version", EN, {"typ"}), En("header_size", EN, {"typ"}),
            En("ekey_size", WD, {"one", "typ"}), En("pkey_size", WD, {"one", "typ"}),
@@ -129,16 +139,30 @@ Row(fmt) ==
            En("key_len", {"zero", "typ", "n:16", "max"}, {"typ", "n:16"}),
            En("off_bits", {"zero", "typ", "max"}, {"zero", "typ", "max"}),
            Ct("entry_block_size", C32, 1, 1, "F02m")>>
-    [] fmt = "lru" ->
+    [] fmt \in {"lru", "lru_ops"} ->
          <<En("version", EN, {"zero", "typ"}), Sl("seal"),
-           Ct("mru_head", {"zero", "typ", "over", "big", "max"}, 20, 0, "-"),
+           Ct("mru_head", {"zero", "typ", "over", "big", "max"}, 20, 0, "F02x"),
            Ct("lru_tail", {"zero", "typ", "over", "big", "max"}, 20, 0, "-"),
-           Ct("e0_prev", {"zero", "typ", "over", "big", "max"}, 20, 0, "-"),
-           Ct("e0_next", {"zero", "typ", "over", "big", "max"}, 20, 0, "-")>>
+           Ct("e0_prev", {"zero", "typ", "over", "big", "max"}, 20, 0, "F02x"),
+           Ct("e0_next", {"zero", "typ", "over", "big", "max"}, 20, 0, "-"),
+           Ct("e1_prev", {"zero", "typ", "over", "big", "max"}, 20, 0, "F02x"),
+           Ct("e4_prev", {"zero", "typ", "over", "big", "max"}, 20, 0, "F02x")>>
     [] fmt = "blte_enc_header" ->
          <<En("key_name_size", {"zero", "typ", "max"}, {"zero", "typ", "max"}),
            En("iv_size", {"zero", "typ", "max"}, {"zero", "typ", "max"}),
            EnD("enc_type", {"zero", "typ", "n:65", "over", "max"}, {"typ", "n:65"}, "F02o")>>
+    [] fmt \in TextFormats ->
+         \* text formats: the `site`-th number of the seed text replaced by a boundary literal (with a unit suffix),
+         \* or the text wrapped `depth` times into one of the format's openers (nesting / repetition)
+         <<En("site", {"n:0", "n:1", "n:2", "n:3"}, {"n:0", "n:1", "n:2", "n:3"}),
+           EnD("lit", NumLits, NumLits \ {"18446744073709551616", "-1", "huge"}, "F02s"),
+           En("unit", {"none", "K", "M", "star32", "star33"}, {"none", "K", "M", "star32"}),
+           EnD("depth", Depths, {"none", "n:33"}, "F02t"),
+           En("opener", {"n:0", "n:1", "n:2"}, {"n:0", "n:1", "n:2"})>>
+    [] fmt = "zbsdiff_ctl" ->
+         \* the *decoded* control block of a ZBSDIFF1 patch: seek offsets of three entries, then diff3 diff bytes
+         <<En("seek0", SeekDom, SeekDom), En("seek1", SeekDom, SeekDom), En("seek2", SeekDom, SeekDom),
+           EnD("diff3", {"zero", "one", "typ"}, {"zero", "one", "typ"}, "F02w")>>
     [] fmt = "dirnames" ->
          \* a directory entry name is disk input too: kind (0 .idx, 1 .lru, 2 data.NNN), a 1-byte (not UTF-8),
          \* 2-byte or 3-byte character at byte offset `off`, one byte shorter / longer than the real names, extension
@@ -154,7 +178,7 @@ Row(fmt) ==
     [] OTHER -> <<>>
 
 Heads == {"blte", "blte_enc_header", "encoding", "archive_index", "root", "install", "download", "size", "tvfs",
-          "patch_archive", "patch_index", "zbsdiff", "local_idx", "lru", "shmem", "dirnames"}
+          "patch_archive", "patch_index", "zbsdiff", "local_idx", "lru", "shmem", "dirnames", "zbsdiff_ctl"} \cup TextFormats
 Decomp(fmt) == fmt \in {"blte_decompress", "encoding_blte", "tvfs_blte", "zbsdiff_apply"}
 
 FieldNames(fmt) == {Row(fmt)[i].n : i \in 1..Len(Row(fmt))}
@@ -190,12 +214,25 @@ StepR(st, f, vec, fmt, kd) ==
          \* an unsealed checksum is refused before the fields behind it are believed
          {IF c = "keep" /\ OffTyp(fmt, vec) # {} THEN Fail(st, "err") ELSE Adv(st)}
     [] f.k = "enum" ->
-         (IF c \in f.acc THEN {Adv(st)} ELSE {Fail(st, "err")})
+         (IF c \in f.acc /\ ~(f.n = "lit" /\ c \in BigLits /\ vec["unit"] \in {"K", "M"}) THEN {Adv(st)} ELSE {Fail(st, "err")})
          \cup (IF f.dev = "F02a" /\ "F02a" \in kd /\ c \notin f.acc /\ vec["header_size"] # "zero"
                THEN {Fail(st, "panic")} ELSE {})
          \cup (IF f.dev = "F02b" /\ "F02b" \in kd /\ SlicePanics(vec) THEN {Fail(st, "panic")} ELSE {})
          \cup (IF f.dev = "F02d" /\ "F02d" \in kd /\ ArithPanics(vec) THEN {Fail(st, "panic")} ELSE {})
          \cup (IF f.dev = "F02o" /\ "F02o" \in kd /\ c \notin f.acc
+               THEN {Fail(st, "panic")} ELSE {})
+         \* F02s: ESpec multiplies the size by the unit unchecked
+         \cup (IF f.dev = "F02s" /\ "F02s" \in kd /\ fmt = "espec" /\ c \in BigLits /\ vec["unit"] \in {"K", "M"}
+               THEN {Fail(st, "panic")} ELSE {})
+         \* F02t: the ESpec parser recurses once per nested spec without a depth limit
+         \cup (IF f.dev = "F02t" /\ "F02t" \in kd /\ fmt = "espec" /\ c \in DeepDepths
+               THEN {Fail(st, "stack")} ELSE {})
+         \* F02u: SizeManifest::validate sums the esizes with `+`
+         \cup (IF f.dev = "F02u" /\ "F02u" \in kd /\ vec["e0_esize"] = "max" /\ vec["e1_esize"] = "max"
+               THEN {Fail(st, "panic")} ELSE {})
+         \* F02w: the patcher advances old_pos with `+= 1` after seeks that reached usize::MAX
+         \cup (IF f.dev = "F02w" /\ "F02w" \in kd /\ c # "zero"
+                  /\ Cardinality({n \in {"seek0", "seek1", "seek2"} : vec[n] = "max"}) >= 2
                THEN {Fail(st, "panic")} ELSE {})
     [] f.k = "count" ->
          LET n    == Claim(c, f.unit)
@@ -205,7 +242,10 @@ StepR(st, f, vec, fmt, kd) ==
                       THEN {[st EXCEPT !.i = @ + 1, !.rem = @ - n * f.unit, !.peak = @ + a, !.steps = @ + 1 + n]}
                       ELSE {Fail(st, "err")}
              \* the deviation: Allocate(n) before the claim is checked against the input
-             dev == IF f.dev \in kd /\ ~fits
+             dev == IF f.dev = "F02x"
+                    \* F02x: load_from_disk walks only the `next` chain; a `prev` link / mru_head outside the table is kept
+                    THEN (IF "F02x" \in kd /\ fmt = "lru_ops" /\ ~fits /\ c # "max" THEN {Fail(st, "panic")} ELSE {})
+                    ELSE IF f.dev \in kd /\ ~fits
                     THEN {IF a > RefuseKiB THEN Fail(st, "abort") ELSE Fail([st EXCEPT !.peak = @ + a], "err")}
                     ELSE {}
          IN ideal \cup dev
@@ -261,7 +301,7 @@ Symptom(e) ==
   IF LostValid(e) THEN "lost" ELSE
   IF e.o = "panic" THEN "panic"
   ELSE IF e.o = "hang" THEN "hang"
-  ELSE IF e.o = "abort" THEN (IF e.why \in {"alloc", "capacity"} THEN "alloc" ELSE "abort")
+  ELSE IF e.o = "abort" THEN (IF e.why \in {"alloc", "capacity"} THEN "alloc" ELSE IF e.why = "stack" THEN "stack" ELSE "abort")
   ELSE IF e.peak_kib > AllocBoundKiB(e.len, e.decomp) \/ e.largest_kib > AllocBoundKiB(e.len, e.decomp) THEN "alloc"
   ELSE "none"
 
@@ -313,6 +353,23 @@ DevExplains(fid, e) ==
     [] fid = "F02o" ->   \* BLTE EncryptedHeader: encryption-type byte other than 'S' / 'A' reaches an expect()
          /\ e.fmt = "blte_enc_header" /\ Symptom(e) = "panic" /\ e.mc = "valid encryption type byte"
          /\ Has(e, "enc_type") /\ ~ValEQ(e.h["enc_type"], 83) /\ ~ValEQ(e.h["enc_type"], 65)
+    [] fid = "F02s" ->   \* ESpec: block size times K / M computed with `*=`
+         /\ e.fmt = "espec" /\ Symptom(e) = "panic" /\ e.mc = "attempt to multiply with overflow"
+         /\ e.loc = "cascette-formats/src/espec/parser.rs" /\ Has(e, "mulovf") /\ ValEQ(e.h["mulovf"], 1)
+    [] fid = "F02t" ->   \* ESpec: one recursion per nested spec, no depth limit: stack overflow aborts the process
+         /\ e.fmt = "espec" /\ Symptom(e) = "stack" /\ Has(e, "colons") /\ ValGT(e.h["colons"], 999)
+    [] fid = "F02u" ->   \* size manifest: validate() sums the esizes with Iterator::sum
+         /\ e.fmt = "size" /\ Symptom(e) = "panic" /\ e.mc = "attempt to add with overflow"
+         /\ e.loc = "iter/traits/accum.rs"
+    [] fid = "F02v" ->   \* ZBSDIFF1: decompress_zlib inflates a block without any limit
+         /\ e.fmt = "zbsdiff_apply" /\ Symptom(e) = "alloc"
+         /\ ~Claims(e, "control_size", 1) /\ ~Claims(e, "diff_size", 1)
+    [] fid = "F02w" ->   \* ZBSDIFF1 patcher: old_pos += 1 after seeks that carried it to usize::MAX
+         /\ e.fmt = "zbsdiff_apply" /\ Symptom(e) = "panic" /\ e.mc = "attempt to add with overflow"
+         /\ e.loc = "cascette-formats/src/zbsdiff/patcher.rs"
+    [] fid = "F02x" ->   \* LRU checkpoint: prev links / mru_head are not validated by load_from_disk; later operations index with them
+         /\ e.fmt = "lru_ops" /\ Symptom(e) = "panic" /\ e.mc = "index out of bounds: the len is N but the index is N"
+         /\ e.loc = "cascette-client-storage/src/lru/mod.rs"
     [] fid = "F02q" ->   \* IndexManager::parse_index_filename sliced a 14-byte name at byte 2 / 10
          /\ e.fmt = "dirnames" /\ Symptom(e) = "panic" /\ e.loc = "cascette-client-storage/src/index/mod.rs"
          /\ e.mc \in {"end byte index N is not a char boundary; it is inside ",
@@ -328,7 +385,8 @@ DevExplains(fid, e) ==
     [] OTHER -> FALSE
 
 FindingOrder == <<"F02a", "F02b", "F02c", "F02d", "F02e", "F02f", "F02g", "F02h", "F02i", "F02j", "F02k",
-                  "F02l", "F02m", "F02n", "F02o", "F02p", "F02q", "F02r">>
+                  "F02l", "F02m", "F02n", "F02o", "F02p", "F02q", "F02r", "F02s", "F02t", "F02u", "F02v", "F02w", "F02x",
+                  "F02y", "F02z">>
 \* deterministic choice of the finding an event is credited to (TLC does not order strings)
 FirstOf(S) == FindingOrder[CHOOSE i \in 1..Len(FindingOrder) :
                              FindingOrder[i] \in S /\ \A j \in 1..(i - 1) : FindingOrder[j] \notin S]
